@@ -1,6 +1,6 @@
 (* C15 -- joins, grouped aggregation / pivot, createDataFrame, range, and every reachable DataFrame. *)
 From Coq Require Import String ZArith NArith List Bool Lia.
-Require Import PV.Base.Val PV.Model.Schema PV.Proofs.Schema PV.Proofs.SchemaOps.
+Require Import PV.Base.Val PV.Gen.SchemaNames PV.Model.Schema PV.Proofs.Schema PV.Proofs.SchemaOps PV.Proofs.SchemaLink.
 Import ListNotations.
 Open Scope Z_scope.
 Close Scope string_scope.
@@ -79,7 +79,7 @@ Qed.
 
 Definition join_names (f g : frame) (how : jointype) (on : list name) (lon ron : list field) : list name :=
   on ++ map fname (filter (not_in lon) (fields f))
-     ++ match how with JSemi | JAnti => [] | _ => map fname (filter (not_in ron) (fields g)) end.
+     ++ (if schema_keeps_right (gh how) then map fname (filter (not_in ron) (fields g)) else []).
 
 Lemma merge_schemas_names : forall f g how on lon ron pfs,
   mapM (first_named (fields f)) on = Ok lon -> mapM (first_named (fields g)) on = Ok ron ->
@@ -91,7 +91,7 @@ Proof.
   unfold join_names. rewrite !map_app, !map_map. simpl.
   f_equal; [|f_equal].
   - destruct how; rewrite ?map_map; simpl; auto.
-  - destruct how; rewrite ?map_map; simpl; auto.
+  - destruct (schema_keeps_right (gh how)); rewrite ?map_map; simpl; auto.
 Qed.
 
 Lemma merge_joined_ok : forall f g how on lon ron l r row',
@@ -122,18 +122,20 @@ Proof.
     inversion Hlp; subst. rewrite map_map. simpl.
     rewrite <- (map_map fst fname). f_equal.
     apply (filter_combine_fst (not_in lon)). symmetry. now apply Hlen.
-  - destruct how; try (inversion Hrp; subst; reflexivity).
-    all: assert (Hnull : length (snd (null_row (snames g))) = length (fields g))
-           by (unfold null_row; simpl; rewrite map_length, Ng; unfold columns; now rewrite map_length).
-    all: match type of Hrp with
-         | (match ?x with Some _ => _ | None => _ end) = _ => destruct x as [rr|] eqn:E; [|discriminate]
-         end.
-    all: inversion Hrp; subst; rewrite map_map; simpl; rewrite <- (map_map fst fname); f_equal;
-         apply (filter_combine_fst (not_in ron)); symmetry.
-    all: destruct r as [r0|];
-         [ inversion E; subst; destruct (HR ltac:(discriminate) _ eq_refl) as [_ Hlen];
-           rewrite Hlen; unfold columns; now rewrite map_length
-         | try discriminate; inversion E; subst; exact Hnull ].
+  - rewrite <- right_fields_agree in Hrp.
+    destruct (schema_keeps_right (gh how)) eqn:K; [|inversion Hrp; subst; reflexivity].
+    assert (Hns : how <> JSemi) by (intros ->; change (gh JSemi) with G_LEFT_SEMI_JOIN in K; rewrite semi_drops_right in K; discriminate).
+    assert (Hnull : length (snd (null_row (snames g))) = length (fields g))
+      by (unfold null_row; simpl; rewrite map_length, Ng; unfold columns; now rewrite map_length).
+    match type of Hrp with
+    | (match ?x with Some _ => _ | None => _ end) = _ => destruct x as [rr|] eqn:E; [|discriminate]
+    end.
+    inversion Hrp; subst; rewrite map_map; simpl; rewrite <- (map_map fst fname); f_equal.
+    apply (filter_combine_fst (not_in ron)); symmetry.
+    destruct r as [r0|].
+    + assert (E' : Some r0 = Some rr) by (destruct how; exact E). inversion E'; subst.
+      destruct (HR Hns _ eq_refl) as [_ Hlen]. rewrite Hlen. unfold columns. now rewrite map_length.
+    + destruct how; try discriminate; inversion E; subst; exact Hnull.
 Qed.
 
 Lemma wf_join : forall f g how on p, wf f -> wf g -> join f g how on = Ok p -> wf_pre p.
@@ -160,7 +162,7 @@ Lemma semi_anti_columns : forall f g how on lon ron pfs,
 Proof.
   intros f g how on lon ron pfs Hh Hl Hr H.
   rewrite (merge_schemas_names _ _ _ _ _ _ _ Hl Hr H). unfold join_names.
-  destruct Hh; subst; now rewrite app_nil_r.
+  destruct Hh; subst; [change (gh JSemi) with G_LEFT_SEMI_JOIN; rewrite semi_drops_right|change (gh JAnti) with G_LEFT_ANTI_JOIN; rewrite anti_drops_right]; now rewrite app_nil_r.
 Qed.
 
 (* ---------- groupBy / agg / pivot ---------- *)
@@ -190,7 +192,7 @@ Qed.
 Definition row_name (single : bool) (cell : option val) (a : agg) : name :=
   match cell with
   | None => agg_str a
-  | Some pv => if single then pv_str pv else pv_str pv ++ [95%N] ++ agg_str a
+  | Some pv => if single then pv_str pv else pivot_name_row (pv_str pv) (agg_str a)
   end.
 Lemma stat_name_row_eq : forall single cell a nm,
   stat_name_row single cell a = Ok nm -> nm = row_name single cell a.
